@@ -143,6 +143,8 @@ fn rule_formula(r: &CfRule) -> Option<String> {
 struct CfState {
     range: String,
     formula: Option<String>,
+    /// second bound of a Between / NotBetween rule
+    formula2: Option<String>,
 }
 
 fn cf_states(um: &UserModel) -> Vec<Option<CfState>> {
@@ -152,7 +154,11 @@ fn cf_states(um: &UserModel) -> Vec<Option<CfState>> {
             if v.len() <= e.index {
                 v.resize(e.index + 1, None);
             }
-            v[e.index] = Some(CfState { range: e.range.clone(), formula: rule_formula(&e.cf_rule) });
+            let formula2 = match &e.cf_rule {
+                CfRule::CellIs { formula2, .. } => formula2.clone(),
+                _ => None,
+            };
+            v[e.index] = Some(CfState { range: e.range.clone(), formula: rule_formula(&e.cf_rule), formula2 });
         }
     }
     v
@@ -537,6 +543,20 @@ pub fn check(case: &Case) -> Outcome {
                     ),
                 );
             }
+            if let Some(f2) = &st.formula2 {
+                let f2_text = f2.strip_prefix('=').unwrap_or(f2);
+                o = o.label("second-rule-formula-compared");
+                if !f2_text.contains('#') && f2_text != probe_text {
+                    return o.fail(
+                        format!("C33:cf-formula2:differs:after={after}"),
+                        format!(
+                            "after step {step} {op:?}: conditional format #{j} on {} (Between) has second formula `{f2_text}` but the same formula kept as a cell formula at its top-left cell {} reads `{probe_text}` (first formula: `{f_text}`)",
+                            st.range,
+                            geom2::a1(r.0, r.1)
+                        ),
+                    );
+                }
+            }
         }
     }
     o = o.label(format!("rule-formula-comparisons:{}", formula_compared.min(9)));
@@ -664,11 +684,22 @@ pub fn case_strategy(max_len: usize, flavor: Flavor, restricted: Vec<String>) ->
                         CfRuleInput::Formula { formula: rule_formula_text(fkind, *r, *c, id, &style), format: dxf(), stop_if_true: false },
                         true,
                     ),
-                    3 | 4 => (
+                    3 => (
                         CfRuleInput::CellIs {
                             operator: ValueOperator::GreaterThan,
                             formula: rule_formula_text(fkind, *r, *c, id, &style),
                             formula2: None,
+                            format: dxf(),
+                            stop_if_true: false,
+                        },
+                        true,
+                    ),
+                    // both bounds hold the same formula: each must follow the cells like the probe
+                    4 => (
+                        CfRuleInput::CellIs {
+                            operator: if fkind % 2 == 0 { ValueOperator::Between } else { ValueOperator::NotBetween },
+                            formula: rule_formula_text(fkind, *r, *c, id, &style),
+                            formula2: Some(rule_formula_text(fkind, *r, *c, id, &style)),
                             format: dxf(),
                             stop_if_true: false,
                         },
